@@ -292,6 +292,13 @@ class PGPObject(metaclass=abc.ABCMeta):
         return i.to_bytes(blen, order)
 
     @staticmethod
+    def int_to_fixed(i, length):
+        """convert integer to a field of exactly ``length`` octets; a value that does not fit is an error"""
+        if not 0 <= i < (1 << (8 * length)):
+            raise ValueError("{:d} does not fit in a field of {:d} octets".format(i, length))
+        return i.to_bytes(length, 'big')
+
+    @staticmethod
     def text_to_bytes(text):
         if text is None:
             return text
